@@ -4,6 +4,7 @@ import (
 	"bufio"
 	"bytes"
 	"context"
+	"errors"
 	"fmt"
 	"io"
 	"net/http"
@@ -63,6 +64,9 @@ type Prog struct {
 	EmptyWrites     bool      `json:"empty_writes,omitempty"`              // ctx.Write / chunked writer: a zero-length Write before every real one (an io.Writer accepts those)
 	SetCLHeader     bool      `json:"set_content_length_header,omitempty"` // after SetBodyStream(r, -1) the handler sets "Content-Length: <true length>" through the header API (a proxy copying the upstream headers)
 	AbortAfter      bool      `json:"abort_after_writes,omitempty"`        // chunked writer: after the writes the handler runs into an error and calls ctx.AbortWithMsg (the header block has left by then)
+	ZeroReads       int       `json:"zero_reads_every,omitempty"`          // stream modes: every n-th Read of the body stream returns (0, nil)
+	CloseFails      bool      `json:"stream_close_fails,omitempty"`        // stream modes: the stream has a Close method, which returns an error
+	LimitSlack      int       `json:"limited_reader_slack,omitempty"`      // LimitedReader mode: N exceeds the bytes the source holds by this much (an upper bound, not a length)
 	PreStatus       int       `json:"pre_status,omitempty"`                // a status the handler sets first and replaces after the body was set (0 = none)
 	Salt            byte      `json:"salt"`
 	Flavor          int       `json:"flavor"`
@@ -80,15 +84,32 @@ type Req struct {
 type Case struct {
 	Reqs  []Req  `json:"requests"`
 	Progs []Prog `json:"programs"`
+	// NoRoute: no route is registered; the program handler is the engine's NoRoute handler (a custom 404 page
+	// or a catch-all application), and the engine's own error text must not be added to what it wrote
+	NoRoute bool `json:"handler_is_no_route,omitempty"`
 }
 
 type pieceReader struct {
 	data   []byte
 	pieces []int
 	i      int
+	// zeroEvery > 0: every zeroEvery-th Read returns (0, nil), which io.Reader allows (io.Pipe does it for a
+	// zero-length Write on the other side)
+	zeroEvery int
+	calls     int
 }
 
+// closingReader: a stream whose Close fails after everything has been delivered (releasing the source failed;
+// the message itself is complete)
+type closingReader struct{ *pieceReader }
+
+func (c closingReader) Close() error { return errors.New("releasing the source failed") }
+
 func (p *pieceReader) Read(b []byte) (int, error) {
+	p.calls++
+	if p.zeroEvery > 0 && p.calls%p.zeroEvery == 1 && p.calls < 40 {
+		return 0, nil
+	}
 	if len(p.data) == 0 {
 		return 0, io.EOF
 	}
@@ -173,12 +194,19 @@ func handler(c context.Context, ctx *app.RequestContext) {
 			}
 			rest = rest[n:]
 		}
-	case mStreamKnown:
-		ctx.SetBodyStream(&pieceReader{data: body, pieces: pieces}, len(body))
-	case mStreamUnknown:
-		ctx.SetBodyStream(&pieceReader{data: body, pieces: pieces}, -1)
-	case mStreamLimited:
-		ctx.SetBodyStream(&io.LimitedReader{R: &pieceReader{data: body, pieces: pieces}, N: int64(len(body))}, -1)
+	case mStreamKnown, mStreamUnknown, mStreamLimited:
+		var rd io.Reader = &pieceReader{data: body, pieces: pieces, zeroEvery: p.ZeroReads}
+		if p.CloseFails {
+			rd = closingReader{rd.(*pieceReader)}
+		}
+		switch p.Mode {
+		case mStreamKnown:
+			ctx.SetBodyStream(rd, len(body))
+		case mStreamUnknown:
+			ctx.SetBodyStream(rd, -1)
+		case mStreamLimited:
+			ctx.SetBodyStream(&io.LimitedReader{R: rd, N: int64(len(body) + p.LimitSlack)}, -1)
+		}
 	case mChunkedWriter:
 		ctx.Response.HijackWriter(resp.NewChunkedBodyWriter(&ctx.Response, ctx.GetWriter()))
 		rest := body
@@ -212,11 +240,19 @@ func handler(c context.Context, ctx *app.RequestContext) {
 }
 
 func getServer() *sconn.Server {
+	if curCase != nil && curCase.NoRoute {
+		if srvNoRoute == nil {
+			srvNoRoute = sconn.NewServer(func(h *server.Hertz) { h.NoRoute(handler) })
+		}
+		return srvNoRoute
+	}
 	if srvInst == nil {
 		srvInst = sconn.NewServer(func(h *server.Hertz) { h.Any("/*path", handler) })
 	}
 	return srvInst
 }
+
+var srvNoRoute *sconn.Server
 
 func encodeReqs(c *Case) []byte {
 	var b []byte
@@ -429,6 +465,15 @@ func genCase(t *rapid.T) *Case {
 		}
 		p.ResetFirst = rapid.IntRange(0, 3).Draw(t, "responseResetFirst") == 0
 		p.EmptyWrites = (p.Mode == mChunkedWriter || p.Mode == mWrite) && rapid.IntRange(0, 2).Draw(t, "emptyWrites") == 0
+		if p.Mode == mStreamKnown || p.Mode == mStreamUnknown || p.Mode == mStreamLimited {
+			if rapid.IntRange(0, 4).Draw(t, "zeroReads") == 0 {
+				p.ZeroReads = rapid.SampledFrom([]int{2, 3, 7}).Draw(t, "zeroReadsEvery")
+			}
+			p.CloseFails = rapid.IntRange(0, 4).Draw(t, "streamCloseFails") == 0
+			if p.Mode == mStreamLimited && rapid.IntRange(0, 3).Draw(t, "limitedReaderSlack") == 0 {
+				p.LimitSlack = rapid.SampledFrom([]int{1, 4096, 1 << 20}).Draw(t, "limitSlack")
+			}
+		}
 		p.AbortAfter = p.Mode == mChunkedWriter && p.Size > 0 && !p.StatusAfterBody && rapid.IntRange(0, 5).Draw(t, "abortAfterWrites") == 0
 		p.SetCLHeader = (p.Mode == mStreamUnknown || p.Mode == mStreamLimited) && len(p.Trailers) == 0 && rapid.IntRange(0, 2).Draw(t, "setContentLengthHeader") == 0
 		if p.Mode != mChunkedWriter && rapid.IntRange(0, 5).Draw(t, "preStatus") == 0 {
@@ -439,6 +484,16 @@ func genCase(t *rapid.T) *Case {
 		}
 		c.Reqs = append(c.Reqs, r)
 		c.Progs = append(c.Progs, p)
+	}
+	c.NoRoute = rapid.IntRange(0, 4).Draw(t, "handlerIsNoRoute") == 0
+	if c.NoRoute {
+		for i := range c.Progs {
+			// (a NoRoute handler that leaves the status at 404 and sets no body at all gets the engine's default
+			// text: documented; such programs answer 410 instead)
+			if p := &c.Progs[i]; p.Status == 404 && p.Mode != mChunkedWriter && (p.Size == 0 || p.Mode == mNone) {
+				p.Status = 410
+			}
+		}
 	}
 	return c
 }
@@ -498,6 +553,10 @@ func TestC04Programs(t *testing.T) {
 		nt, cls := classify(c)
 		rec.Case(nt, ev.HashString(fmt.Sprintf("%+v", *c)), cls...)
 		if msg := Check(c); msg != "" {
+			if inD120(c) && ev.ReportKnown(prop, "D120") {
+				rec.Excluded("D120-limited-reader-whose-limit-exceeds-the-source", 1)
+				return
+			}
 			if inD92(c) && ev.ReportKnown(prop, "D92") {
 				rec.Excluded("D92-response-replaced-after-the-chunked-writer-has-sent-the-header", 1)
 				return
@@ -520,6 +579,18 @@ func TestC04Programs(t *testing.T) {
 func inD48(c *Case) bool {
 	for i, p := range c.Progs {
 		if (p.PreStatus == 204 || p.PreStatus == 304) && p.Mode != mNone && !wire.Bodiless(c.Reqs[i].Method, p.Status) {
+			return true
+		}
+	}
+	return false
+}
+
+// inD120: known finding D120. SetBodyStream(io.LimitReader(src, n), -1) with a source that ends before n: hertz
+// announces n as Content-Length (LimitedReader.N is read as the length; it is an upper bound), sends what the
+// source had and drops the connection.
+func inD120(c *Case) bool {
+	for _, p := range c.Progs {
+		if p.LimitSlack > 0 {
 			return true
 		}
 	}
